@@ -190,7 +190,11 @@ GF("server_network_data", ret="c", props=["C05", "C03"],
    closures={1: dict(params="count: &U16", ret="-> (r: MessageOption)", props="C03", cid="channelIdArray-size-is-2-x-channelCount",
                      spec='ensures r.ov() == OV::Size("channelIdArray"@, (count.val() as usize * 2) as usize)'),
              2: dict(params="", ret="-> (r: U16)", spec="ensures r == U16::LE(0)")},
-   ensures=shape_clauses(GCC, "server_network_data", res="c") + [("C03", NET_CID, "c.mv() == server_network_view(%s)" % NET_CHAN)],
+   ensures=shape_clauses(GCC, "server_network_data", res="c") + [("C03", NET_CID, "c.mv() == server_network_view(%s)" % NET_CHAN),
+       # MS-RDPBCGR 2.2.1.4.4: MCSChannelId is chosen by the server ("any ... channel ids" in C03).  FAILS on the current code (Check(1003)):
+       # genuine defect recorded in known_findings.json (demo: defects/c03_io_channel_id_demo.diff), not repaired: the repair needs the id threaded
+       # through gcc::ServerData into mcs::Client::connect (public struct change)
+       ("C03", "io-channel-id-is-server-chosen", "c.fields()[0].0 == \"MCSChannelId\"@ && c.fields()[0].1 is U16")],
    post="""proof { let f = c.fields(); let g = server_network_view(%s)->Comp_0;
         assert(f[1].1 == g[1].1);
         assert(f[2].1->Arr_0 =~= Seq::<MV>::empty()); assert(f[2].1 == g[2].1);
@@ -215,8 +219,8 @@ GF("read_conference_create_response", props=["C05", "C03"],
    pre="let ghost b = cc_response.rest();",
    hints=[(r"server_core\.read\(", 1, "proof { assert(server_core.fields()[0].0 == \"rdpVersion\"@); }"),
           (r"server_net\.read\(", 1, "proof { assert(server_net.fields()[2].0 == \"channelIdArray\"@); }"),
-          (r"per::read_octet_stream\(&H221_SC_KEY, 4, cc_response\)\?;", 1, "proof { assert(cc_response.rest() == ccr_at_key(b)); }", "before"),
-          (r"per::read_octet_stream\(&H221_SC_KEY, 4, cc_response\)\?;", 1, "proof { assert(H221_SC_KEY@ =~= seq![0x4du8, 0x63u8, 0x44u8, 0x6eu8]); assert(ccr_key_ok(b)) by { reveal(ccr_key_ok); } }")],
+          (r"per::read_octet_stream\(", 1, "proof { assert(cc_response.rest() == ccr_at_key(b)); }", "before"),
+          (r"per::read_octet_stream\(", 1, "proof { assert(H221_SC_KEY@ =~= seq![0x4du8, 0x63u8, 0x44u8, 0x6eu8]); assert(ccr_key_ok(b)) by { reveal(ccr_key_ok); } }")],
    ensures=[("C05", "monotone", "true"),
             # T.124 / MS-RDPBCGR 2.2.1.4 (wire level, necessary conditions of acceptance): the reader walks the PER fields in the documented order and widths (ccr_at_key) and
             # accepts only the H.221 non standard key "McDn" with length determinant 0 (= 4 - the lower bound 4) behind an OBJECT IDENTIFIER of 5 content bytes
